@@ -891,7 +891,7 @@ impl Scenario for Corrupt {
             Case::Text { doc, style } => {
                 let mut out = vec![];
                 let plain = TextStyle::default();
-                if style.ws != 0 || style.escape_non_ascii || style.escape_slash || style.trail != 0 || style.num_form != 0 {
+                if style.ws != 0 || style.escape_non_ascii || style.escape_slash || style.trail != 0 || style.lead != 0 || style.num_form != 0 {
                     out.push(Case::Text { doc: doc.clone(), style: plain });
                 }
                 for d in shrink::shrink_tree(doc) {
